@@ -11,7 +11,7 @@ import subprocess
 import sys
 from random import Random
 
-from .. import alphabet, refcal, runner
+from .. import alphabet, grammar, refcal, runner
 from ..common import lib, viol, ts_of
 
 PID = "C01"
@@ -45,6 +45,7 @@ SIX_OPTS = [
     (True, 0, 1.0, "random", True),
     (False, 1, 0.5, "shipped", False),
 ]
+PAIR_JOINERS = [" ", " - ", " for ", " bis "]
 EXTREME_OPTS = [(True, 10, 1.0, "shipped", False), (False, 0, 0.1, "random", False), (True, 0, 0.1, "dummy", False)]
 
 
@@ -83,7 +84,7 @@ def plan(tier, seed):
     if tier == "quick":
         k2 = alphabet.texts_k2(2, glued="hazards")
         k2_ts = [edge[3]]
-        k2_opts = SIX_OPTS
+        k2_opts = EXTREME_OPTS
         k3 = []
         absent = k1
         cps = []
@@ -94,6 +95,10 @@ def plan(tier, seed):
         k3 = alphabet.texts_k3_core()
         absent = k1 + alphabet.texts_k2(2, glued="hazards")
         cps = list(range(0, 0x110000, 2048))
+
+    gs = [s_ for _, s_ in grammar.sentences()]
+    # quick: second components = first and last sentence of every family (the last ones are the hazard forms: hour-only clocks, huge durations)
+    gs_b = list(dict.fromkeys(x for _, ss in grammar.FAMILIES for x in (ss[0], ss[-1], ss[-2])))
 
     def gen():
         for t in k1:
@@ -110,6 +115,13 @@ def plan(tier, seed):
         for t in k3:
             for o in EXTREME_OPTS:
                 yield ("call", t, edge[3], o, seed)
+        # every ordered pair of grammar sentences under each joiner: reaches compositions that need 4-6 tokens
+        # (datetime - datetime ranges, date for <huge duration>, part of day + date + range ...)
+        for a in gs:
+            for b in (gs_b if tier == "quick" else gs):
+                for j in (PAIR_JOINERS[:3] if tier == "quick" else PAIR_JOINERS):
+                    for o in (EXTREME_OPTS[:1] if tier == "quick" else EXTREME_OPTS):
+                        yield ("call1" if tier == "quick" else "call", a + j + b, edge[3], o, seed)
         for b in cps:
             yield ("cpblock", b, edge[3])
         for i in range(0, len(absent), 50):
@@ -120,6 +132,7 @@ def plan(tier, seed):
         "texts_1_token": len(k1),
         "texts_2_tokens": len(k2),
         "texts_3_tokens": len(k3),
+        "grammar_sentence_pairs_x_joiners": (len(gs) * len(gs_b) * 3) if tier == "quick" else (len(gs) ** 2 * len(PAIR_JOINERS)),
         "option_vectors_full_product": len(ALL_OPTS),
         "option_vectors_2_tokens": len(k2_opts),
         "reference_times": len(edge),
